@@ -121,21 +121,12 @@ func runC18(r *Run) {
 		for _, p := range [][2]string{{"lower", "NotAfterStart"}, {"upper", "NotAfterLimit"}} {
 			sts := r.StoresTo(fn, "&(new:client.interval#*."+p[0]+")")
 			r.Check("shardInterval:"+p[0]+"-set", len(sts) == 1, r.FnPos(fn), fmt.Sprintf("%d stores to interval.%s", len(sts), p[0]))
-			for _, st := range sts {
-				got := "?"
-				if a, ok := st.Val.(*ssa.Alloc); ok {
-					got = ""
-					for _, s2 := range r.storesAt(fn, r.D.allocName(a)) {
-						got += r.D.D(s2.Val)
-					}
-				}
-				r.Check("shardInterval:"+p[0]+"←"+p[1], got == fmt.Sprintf(asTime, p[1]), r.Where(st), "interval."+p[0]+" ← &("+got+")")
-			}
+			r.ExpectPointee(fn, "shardInterval:"+p[0]+"←"+p[1], "new:client.interval#*."+p[0], fmt.Sprintf(asTime, p[1]), 1)
 		}
 	}
 	if fn := r.Fn("trillian/ctfe.ValidateLogConfig"); fn != nil {
 		for _, f := range []string{"NotAfterStart", "NotAfterLimit"} {
-			r.ExpectStores(fn, "ValidateLogConfig:"+f, "new:trillian/ctfe.ValidatedLogConfig#*."+f, fmt.Sprintf(asTime, f), 1)
+			r.ExpectPointee(fn, "ValidateLogConfig:"+f, "new:trillian/ctfe.ValidatedLogConfig#*."+f, fmt.Sprintf(asTime, f), 1)
 		}
 	}
 	if fn := r.Fn("trillian/ctfe.setUpLogInfo"); fn != nil {
